@@ -135,4 +135,6 @@ def _solve(I, a, k):
 def make_sympy():
     sym_float = ExtType("sympy.Float")
     core = ExtMod("sympy.core", {"numbers": ExtMod("sympy.core.numbers", {"Float": sym_float}), "symbol": ExtMod("sympy.core.symbol", {"Symbol": ExtType("sympy.Symbol")}), "expr": ExtMod("sympy.core.expr", {"Expr": ExtType("sympy.Expr")})})
-    return ExtMod("sympy", {"core": core, "symbols": NativeFn("sympy.symbols", _symbols), "solve": NativeFn("sympy.solve", _solve)})
+    # sympy.Symbol(name) takes the name verbatim; sympy.symbols(name) parses it (ranges, separators): the model gives both the
+    # meaning "one symbol called name", which is right for symbols() only on names without ':', ',' and blanks
+    return ExtMod("sympy", {"core": core, "symbols": NativeFn("sympy.symbols", _symbols), "Symbol": NativeFn("sympy.Symbol", _symbols), "solve": NativeFn("sympy.solve", _solve)})
